@@ -85,7 +85,7 @@ def build() -> Check:
                 av = s.data.get("arg_values") or []
                 if len(av) < 2 or av[0].key() != ret:
                     b2.append((f"wait strategy sees {av[0].key() if av else None}, not the state the check returned", t))
-                elif not attempt_expr_ok(av[1], t.pc):
+                elif not attempt_expr_ok(av[1], t.pc, st == ABSENT):
                     b2.append((f"wait strategy called with attempt={av[1].key()}", t))
                 if s.data.get("outcome") != "return":
                     continue
